@@ -564,3 +564,24 @@ Section RunExact.
     apply (update_exact G gadd gopp gzero gscale gvalid GL i dl n st v nw Hi Hf Hn Hv Hc).
   Qed.
 End RunExact.
+
+(* ---------- EPMeanFieldSubset as the code now is (switch code_subset_scalar_paths = true) ---------- *)
+Lemma get_only_messages_map (v : var) (F : var * N2 -> option N2) (m : nmf) (o x : N2) :
+  get N2 v m = Some o -> F (v, o) = Some x ->
+  get N2 v (only_messages N2 (map (fun vm => (fst vm, F vm)) m)) = Some x.
+Proof.
+  induction m as [|[w g] m IH]; simpl; intros Hg HF; [discriminate|].
+  destruct (Nat.eqb w v) eqn:E.
+  - apply Nat.eqb_eq in E. subst w. injection Hg as ->. rewrite HF. simpl. rewrite Nat.eqb_refl. reflexivity.
+  - destruct (F (w, g)); simpl; [rewrite E|]; apply IH; assumption.
+Qed.
+
+Theorem sub_cavity_single_owner (frac : Q) (scalars : list var) (i : nat) (sst : nstate) (v : var) (o : N2) :
+  get N2 v (own N2 i sst) = Some o -> get N2 v (n_cavity i sst) = None ->
+  qclt (scale_in frac scalars (own N2 i sst) v) (Q2Qc 1) = true ->
+  get N2 v (sub_cavity frac scalars i sst) = Some (sub_rest (scale_in frac scalars (own N2 i sst) v) o).
+Proof.
+  intros Ho Hc Hs. unfold sub_cavity.
+  apply (get_only_messages_map v _ (own N2 i sst) o); [exact Ho|].
+  simpl. rewrite Hc, Hs. reflexivity.
+Qed.
